@@ -1,7 +1,7 @@
 """Path-sensitive definite assignment and nullness over the CFG.
 
 Abstract state = (names definitely bound, facts) where a fact is
-(access path, 'none' | 'notnone' | 'falsy') for a local or a ``self.x`` path.
+(access path, 'none' | 'notnone' | 'truthy' | 'falsy') for a local or a ``self.x`` path.
 States are kept as *sets* per CFG node (no lossy join), refined on branch edges
 by what the test implies, and pruned when a refinement contradicts a fact --
 this is what makes ``if t is not None: end = ...`` / ``if t is not None: use(end)``
@@ -61,7 +61,7 @@ def refine(test, truth):
         return out
     p = _path_of(test)
     if p:
-        out.append((p, 'notnone') if truth else (p, 'falsy'))
+        out.append((p, 'truthy') if truth else (p, 'falsy'))          # truthy implies not None
         return out
     if isinstance(test, ast.Call) and dotted(test.func) == 'isinstance' and truth and test.args:
         p = _path_of(test.args[0])
@@ -76,10 +76,12 @@ def contradicts(facts, new):
         cur = d.get(p)
         if cur is None:
             continue
-        if cur == 'none' and f == 'notnone':
+        if cur == 'none' and f in ('notnone', 'truthy'):
             return True
-        if cur == 'notnone' and f == 'none':
+        if cur in ('notnone', 'truthy') and f == 'none':
             return True
+        if (cur == 'truthy' and f == 'falsy') or (cur == 'falsy' and f == 'truthy'):
+            return True          # `if x:` ... `if not x:` on a name nothing re-bound in between
     return False
 
 
@@ -91,6 +93,8 @@ def add_facts(facts, new):
             continue
         if f == 'falsy' and cur == 'notnone':
             d[p] = 'notnone'     # falsy but not None (0, '', ...): keep the stronger None-fact
+            continue
+        if f == 'notnone' and cur == 'truthy':
             continue
         d[p] = f
     return tuple(sorted(d.items()))
@@ -236,7 +240,7 @@ class Flow(object):
                 or ('.' in p and p.split('.')[-1] in self.none_attrs and p.split('.')[0] in ('self', 'spawn'))):
             return False
         f = dict(facts).get(p)
-        return f != 'notnone'
+        return f not in ('notnone', 'truthy')
 
     def check_none_use(self, e, facts, cfgnode, st):
         if isinstance(e, ast.Compare):
@@ -346,7 +350,7 @@ class Flow(object):
                         sp = _path_of(a.value)
                         if sp:
                             sf = dict(nf).get(sp)
-                            if sf in ('none', 'notnone'):
+                            if sf in ('none', 'notnone', 'truthy'):
                                 vf = sf
                     if vf is None and isinstance(a.value, ast.Name):
                         # a module-level constant (`_NO_TIMEOUT = 1e6`): bound once at module level to a literal that is not None
